@@ -605,7 +605,7 @@ class XsdAnyElement(XsdWildcard, ParticleMixin,
             )
 
         try:
-            element_data = context.converter.element_encode(value, xsd_element)
+            element_data = context.converter.element_encode(value, xsd_element, context.level)
         except (ValueError, TypeError) as err:
             if validation != 'skip' and self.process_contents == 'strict':
                 context.validation_error(validation, self, err, value)
